@@ -19,7 +19,8 @@ Inductive probe :=
 | PBuyer (price : coin) (fee : list coin) (obs : bool)           (* Keeper.ValidateBuyerSettlementFee *)
 | PAskPrice (price : coin) (flat : option coin) (obs : bool)     (* Keeper.ValidateAskPrice *)
 | PCan (k : attr_kind) (accs : list string) (obs : bool)         (* Keeper.CanCreateAsk/Bid/Commitment *)
-| PAct (accs : list string) (a : action) (obs : bool).           (* message handler, funds available *)
+| PAct (accs : list string) (a : action) (obs : bool)            (* message handler, funds available *)
+| PFlags (ao us ac : bool).                                       (* Keeper.Update*: the flags from here on *)
 
 Inductive case := CMarket (m : market) (created : bool) (probes : list probe).
 
@@ -70,6 +71,24 @@ Definition check_probe (m : market) (created : bool) (mk : option stored) (p : p
       tag (Bool.eqb (admits mk al a) obs) "corr:admission" ++
       tag2 (admit_spec created m al a) obs
            "prop:ineligible_request_admitted" "prop:eligible_request_refused"
+  | PFlags _ _ _ => []
+  end.
+
+(** The probes in order; a [PFlags] probe changes the flags for the probes after it.  The failures
+    of the first failing probe are reported with its position. *)
+Fixpoint check_probes (m : market) (created : bool) (mk : option stored) (i : N) (ps : list probe)
+  : list string :=
+  match ps with
+  | [] => []
+  | PFlags ao us ac :: r =>
+      check_probes (set_flags m ao us ac) created
+                   (match mk with Some s => Some (set_flags_stored s ao us ac) | None => None end)
+                   (N.succ i) r
+  | p :: r =>
+      match check_probe m created mk p with
+      | [] => check_probes m created mk (N.succ i) r
+      | e => map (fun t => (t ++ " @step " ++ N_to_string i)%string) e
+      end
   end.
 
 Definition check (c : case) : list string :=
@@ -77,7 +96,7 @@ Definition check (c : case) : list string :=
   | CMarket m created probes =>
       let mk := create_market m in
       if Bool.eqb (is_some mk) created then
-        first_failure (check_probe m created mk) 0%N probes
+        check_probes m created mk 0%N probes
       else ["corr:create_market"]
   end.
 
